@@ -54,12 +54,14 @@ MOD = {
                 "sdes_item_owned_eq", "unknown_setters", "fb_setters", "rpsi_setters", "nack_add_idempotent",
                 "nack_add_comm", "nack_add_mem", "fir_add_last_wins", "fir_add_comm", "fir_image_perm",
                 "packet_builder_forwards", "compound_singleton"],
-    "Fast": ["fast_nack_eq", "fast_fir_eq", "fast_sli_eq", "fast_compound_eq"],
+    "Fast": ["fast_nack_eq", "fast_fir_eq", "fast_sli_eq", "fast_compound_eq", "fast_compoundParse_eq", "fast_sdesParse_eq",
+             "fast_packetParse_eq", "fast_kindParse_eq"],
     "EndToEnd": ["fb_nack_end_to_end", "fb_fir_end_to_end", "fb_sli_end_to_end", "fb_rpsi_end_to_end", "fb_pli_end_to_end",
                  "fci_err_truthful", "parseFci_err_truthful", "packet_err_truthful", "packet_pad_transparent",
                  "compound_iter_offsets", "sdes_sizes_bounded"],
 }
 WHERE = {t: m for m, ts in MOD.items() for t in ts}
+MOD_FAST = MOD["Fast"]
 
 REFINES = ["rb_refines", "sr_refines", "rr_refines", "app_refines", "bye_refines", "unknown_refines", "custom_refines",
            "item_refines", "chunk_refines", "sdes_refines", "nack_sorted_empty", "nack_sorted_add", "nack_refines",
@@ -70,7 +72,7 @@ RULES = ["rb_rules", "sr_rules", "rr_rules", "bye_rules", "app_rules", "item_rul
 OBLIGATIONS = {
     "C01": MOD["Total"] + ["checkPacket_no_panic", "parsers_no_panic", "sdes_parse_no_panic", "fci_parsers_no_panic",
                            "compound_parse_no_panic", "compound_iter", "compound_fused", "item_accessors", "chunk_length",
-                           "nack_entries_eq", "fir_entries_eq", "sli_entries_eq", "tiling_length_le", "sdes_sizes_bounded"] + ["fast_nack_eq", "fast_fir_eq", "fast_sli_eq", "fast_compound_eq"],
+                           "nack_entries_eq", "fir_entries_eq", "sli_entries_eq", "tiling_length_le", "sdes_sizes_bounded"] + MOD_FAST,
     "C02": ["rb_roundtrip", "sr_roundtrip", "rr_roundtrip", "rb_refines", "sr_refines", "rr_refines", "written_eq_image",
             "writeInto_ok", "rb_rules", "sr_rules", "rr_rules"],
     "C03": ["sdes_roundtrip", "refTok_encode", "item_refines", "chunk_refines", "sdes_refines", "written_eq_image",
@@ -96,11 +98,11 @@ OBLIGATIONS = {
             "bye_roundtrip", "app_roundtrip", "fb_roundtrip", "unknown_roundtrip"],
     "C10": ["sdes_parse_accepts", "sdes_parse_rejects", "sdes_parse_no_panic", "sdes_parse_ok_iff", "item_accessors",
             "chunk_length", "refTok_encode", "chunkImage_length", "sdes_roundtrip", "ref_rejects_item_overrun",
-            "ref_rejects_priv_overrun", "ref_rejects_nonzero_fill"],
+            "ref_rejects_priv_overrun", "ref_rejects_nonzero_fill", "fast_sdesParse_eq"],
     "C11": ["compound_parse_ok_iff", "compound_parse_no_panic", "tiling_sound", "compound_iter", "compound_fused",
-            "tiling_length_le", "compound_iterator_total", "compound_iter_offsets", "fast_compound_eq"],
+            "tiling_length_le", "compound_iterator_total", "compound_iter_offsets", "fast_compound_eq", "fast_compoundParse_eq"],
     "C12": ["packet_parse_eq", "packet_parse_short", "packet_unknown_data", "packet_data", "tryAs_same",
-            "tryAs_mismatch", "tryAs_unknown", "packet_kind"],
+            "tryAs_mismatch", "tryAs_unknown", "packet_kind", "fast_packetParse_eq", "fast_kindParse_eq"],
     "C13": MOD["Padding"] + ["packet_pad_transparent"],
     "C14": ["compound_refines", "compound_size_sum", "compound_accept_iff", "compound_singleton"] + MOD["Compose"],
     "C15": ["parseFci_eq", "nack_entries_eq", "fir_entries_eq", "sli_entries_eq", "rpsi_decode_eq", "rpsi_parse_ok_iff",
@@ -159,7 +161,7 @@ def parse_fci(r, tier):
     return reqs
 
 
-MANY_TILES = False     # enabled once the driver's Compound.parse is linear (Fast.compoundParse)
+MANY_TILES = True      # enabled once the driver's Compound.parse is linear (Fast.compoundParse)
 
 
 def parse_compound(r, tier):
@@ -219,7 +221,7 @@ def big_light(r):
     """the inputs beyond 64 KiB minus the three on which the model's iterators are quadratic
     (a 64 KiB NACK list, directly and inside a transport feedback packet, and a 64 KiB SDES): those
     run in C01 and C15 only"""
-    return [(q, m) for q, m in streams.big_inputs(r) if not (m["kind"] in ("sdes",) and len(m["bytes"]) > 60000)]
+    return [(q, m) for q, m in streams.big_inputs(r) if True]
 
 
 def pad_big(r):
